@@ -151,6 +151,11 @@ func genUniverse(r *rand.Rand, p profile) Universe {
 		es = append(es, Entry("CustomResourceDefinition", "", crdMeta.Name), Entry("Bar", invNS, "bar-a"))
 	}
 	for i := range es {
+		// a finalizer that nobody removes; not on Namespace / CRD objects: a terminating namespace
+		// rejects creates and a terminating CRD stops serving its kind, which neither the fake nor the model do
+		if es[i].Kind == KPlain && !es[i].FInv && chance(r, 0.25) {
+			es[i].Fin = true
+		}
 		// spelling of the keep attribute: the two single spellings most of the time
 		if chance(r, 0.55) {
 			es[i].KeepVar = 3 + r.Intn(len(keepVariants)-3)
@@ -401,7 +406,24 @@ func genWait(r *rand.Rand, base WSched, prune bool, timeoutOn, varied bool) WSch
 		if varied {
 			k = r.Intn(12)
 		}
-		if prune {
+		if prune && d.St == STerminating {
+			// held by a finalizer (the probe saw it linger): it is never reported
+			// NotFound, so the wait can only end by its timeout or by cancellation
+			term := SObs{ID: d.ID, St: STerminating, Body: true, UID: d.UID, Gen: objGen}
+			unresolved = true
+			switch k % 5 {
+			case 0:
+				seq = []SObs{term}
+			case 1:
+				seq = []SObs{term, term}
+			case 2:
+				// silent
+			case 3:
+				seq = []SObs{{ID: d.ID, St: SUnknown}, term}
+			default:
+				seq = []SObs{{ID: d.ID, St: SFailed, Body: true, UID: d.UID, Gen: objGen}, term}
+			}
+		} else if prune {
 			gone := SObs{ID: d.ID, St: SNotFound}
 			switch k {
 			case 0, 1, 2, 3, 4:
@@ -490,6 +512,14 @@ func genEnv(r *rand.Rand, p profile, op *Opts, cur Cluster, probe RunResult) Env
 	o := *op
 	env := Env{WatchErrAt: -1}
 	kinds := waitKinds(probe.Plan)
+	for k, base := range probe.Waits {
+		for _, d := range base.Deliv {
+			if kinds[k] && d.St == STerminating && !op.PruneTimeout && chance(r, 0.7) {
+				op.PruneTimeout = true // a finalizer-held object: let the wait time out rather than abort the run
+				o = *op
+			}
+		}
+	}
 	for k, base := range probe.Waits {
 		prune := kinds[k]
 		if prune {
@@ -808,6 +838,22 @@ func (c *collector) count(sc Scenario, res RunResult) {
 	if o.StatusPolicyAll {
 		s.Count("statuspolicy:all")
 	}
+	for _, it := range res.Out.Trace {
+		if strings.HasPrefix(it.Text, "REQ RDelete ") && strings.Contains(it.Text, " ok ") {
+			var id int
+			fmt.Sscanf(strings.Fields(it.Text)[2], "%d", &id)
+			if id < len(sc.Univ) && sc.Univ[id].Fin {
+				s.Count("fin:delete-accepted-object-lingers")
+				break
+			}
+		}
+	}
+	for _, e := range sc.Univ {
+		if e.Fin {
+			s.Count("fin:run-over-universe-with-fin")
+			break
+		}
+	}
 	s.Count(fmt.Sprintf("faults:%d", len(sc.Env.Faults)))
 	for _, f := range sc.Env.Faults {
 		s.Count("fault:" + f.Kind)
@@ -884,7 +930,17 @@ func (c *collector) fixedHistory(u Universe, init Cluster, runs []fixedRun) {
 		sc := Scenario{Univ: u, Local: fr.local, Opts: fr.opts}
 		probe := Probe(st, sc)
 		c.probes++
-		sc.Env = Env{WatchErrAt: fr.watchErr - 1, Waits: probe.Waits, Faults: fr.faults, Cancel: fr.cancel}
+		sc.Env = Env{WatchErrAt: fr.watchErr - 1, Waits: append([]WSched(nil), probe.Waits...), Faults: fr.faults, Cancel: fr.cancel}
+		kinds := waitKinds(probe.Plan)
+		for k := range sc.Env.Waits {
+			w := &sc.Env.Waits[k]
+			w.End = WCancel
+			for _, d := range w.Deliv {
+				if kinds[k] && d.St == STerminating && fr.opts.PruneTimeout {
+					w.End = WTimeout // lingers until the timeout
+				}
+			}
+		}
 		res := c.run(st, sc)
 		c.count(sc, res)
 		h.Runs, h.Outs = append(h.Runs, sc), append(h.Outs, res.Out)
@@ -968,7 +1024,7 @@ func (c *collector) corpus() {
 	unowned := Cluster{NextUID: 100, HasInv: true, Inv: []int{0, 1}, Objs: []CObj{
 		{ID: 0, UID: 1, Owner: ONone, Keep: true, Ver: 1}, CObj{ID: 1, UID: 2, Owner: OOther, Keep: true, Ver: 1}.Applied()}}
 	c.fixedHistory(u, unowned, []fixedRun{{opts: Opts{Destroy: true, Prune: true, Policy: PAdoptAll}}})
-	for _, kv := range []int{3, 4, 7, 9} {
+	for _, kv := range []int{3, 4, 5, 7} {
 		ea, eb := Entry("ConfigMap", invNS, "cm-a"), Entry("ConfigMap", invNS, "cm-b")
 		ea.KeepVar, eb.KeepVar = kv, kv
 		uk := NewUniverse([]UEntry{ea, eb})
@@ -1000,6 +1056,33 @@ func (c *collector) corpus() {
 	c.stalledHistory(u5, four, fixedRun{local: four4, opts: Opts{Prune: true, Policy: PMustMatch, RecTimeout: true}})
 	c.stalledHistory(u5, four, fixedRun{local: four4[:1], opts: Opts{Prune: true, Policy: PMustMatch, RecTimeout: true, PruneTimeout: true}})
 	c.stalledHistory(u5, four, fixedRun{opts: Opts{Destroy: true, Prune: true, Policy: PMustMatch, PruneTimeout: true}})
+	// 11. objects held by a finalizer (a = ConfigMap with finalizer, b = plain ConfigMap)
+	fa, fb := Entry("ConfigMap", invNS, "cm-a"), Entry("ConfigMap", invNS, "cm-b")
+	fa.Fin = true
+	uf := NewUniverse([]UEntry{fa, fb})
+	destroyT := Opts{Destroy: true, Prune: true, Policy: PMustMatch, PruneTimeout: true}
+	// (a) destroy with a short delete timeout, then destroy again
+	c.fixedHistory(uf, two, []fixedRun{{opts: destroyT}, {opts: destroyT}})
+	c.fixedHistory(uf, two, []fixedRun{{opts: Opts{Destroy: true, Prune: true, Policy: PMustMatch}}})
+	// (b) prune of the held object in an apply run with prune timeout, then the identical apply again
+	pruneT := Opts{Prune: true, Policy: PMustMatch, PruneTimeout: true}
+	c.fixedHistory(uf, two, []fixedRun{{local: []LObj{{ID: 1, Ver: 1}}, opts: pruneT}, {local: []LObj{{ID: 1, Ver: 1}}, opts: pruneT}})
+	// (c) the held object depends on the plain one: it lingers, so its dependency must not be deleted
+	depFin := Cluster{NextUID: 100, HasInv: true, Inv: []int{0, 1}, Objs: []CObj{
+		CObj{ID: 0, UID: 1, Owner: OOurs, Ver: 1, Deps: []int{1}}.Applied(), CObj{ID: 1, UID: 2, Owner: OOurs, Ver: 1}.Applied()}}
+	c.fixedHistory(uf, depFin, []fixedRun{{opts: destroyT}})
+	c.fixedHistory(uf, depFin, []fixedRun{{local: nil, opts: pruneT}})
+	// (d) destroy, then apply the manifest of the lingering (terminating) object again, client- and server-side
+	c.fixedHistory(uf, two, []fixedRun{{opts: destroyT}, {local: []LObj{{ID: 0, Ver: 2}, {ID: 1, Ver: 1}}, opts: Opts{Prune: true, Policy: PMustMatch}}, {opts: destroyT}})
+	c.fixedHistory(uf, two, []fixedRun{{opts: destroyT}, {local: []LObj{{ID: 0, Ver: 2}}, opts: Opts{Prune: true, Policy: PMustMatch, SSA: true}}})
+	// (e) two held objects and a plain one, all tracked: both linger when the delete / prune timeout fires
+	ga, gb, gc := Entry("ConfigMap", invNS, "cm-a"), Entry("ConfigMap", invNS, "cm-b"), Entry("Secret", invNS, "sec-a")
+	ga.Fin, gb.Fin = true, true
+	ug := NewUniverse([]UEntry{ga, gb, gc})
+	three := Cluster{NextUID: 100, HasInv: true, Inv: []int{0, 1, 2}, Objs: []CObj{
+		CObj{ID: 0, UID: 1, Owner: OOurs, Ver: 1}.Applied(), CObj{ID: 1, UID: 2, Owner: OOurs, Ver: 1}.Applied(), CObj{ID: 2, UID: 3, Owner: OOurs, Ver: 1}.Applied()}}
+	c.fixedHistory(ug, three, []fixedRun{{opts: destroyT}, {opts: destroyT}})
+	c.fixedHistory(ug, three, []fixedRun{{local: []LObj{{ID: 2, Ver: 1}}, opts: pruneT}, {local: []LObj{{ID: 2, Ver: 1}}, opts: pruneT}})
 	// a plain round trip: apply two, apply one (prune), destroy
 	c.fixedHistory(u, Cluster{NextUID: 100}, []fixedRun{
 		{local: []LObj{{ID: 0, Ver: 1}, {ID: 1, Ver: 1, Deps: []int{0}}}, opts: Opts{Prune: true, Policy: PMustMatch}},
